@@ -47,6 +47,158 @@ pub struct SeedEnc {
 	pub ident: Option<(usize, usize)>,
 	/// 0-based field index of the hash count of a segment proof inside this encoding
 	pub proof: Option<usize>,
+	/// repeated groups inside this encoding: (count field, first field of the first item, last field of the first item,
+	/// last field of the last item), 0-based
+	pub groups: Vec<(usize, usize, usize, usize)>,
+	/// 0-based field indices (version u16, height u64, edge_bits u8) of the first block header inside this encoding
+	/// (the packed nonces are the field after edge_bits)
+	pub hdr: Option<(usize, usize, usize)>,
+}
+
+/// number of fields of an encoded block header
+pub const HEADER_FIELDS: usize = 16;
+
+pub fn fval(s: &SeedEnc, i: usize) -> u64 {
+	let f = &s.fields[i];
+	let mut v = 0u64;
+	for b in &s.bytes[f.off..f.off + f.w.min(8)] {
+		v = (v << 8) | *b as u64;
+	}
+	v
+}
+
+fn is_codec(s: &SeedEnc, labels: &[&str]) -> bool {
+	s.target == "Codec::read" && labels.iter().any(|l| s.label.starts_with(l))
+}
+
+/// the first block header of the encoding
+fn find_header(s: &SeedEnc) -> Option<(usize, usize, usize)> {
+	let t = s.target;
+	let o = if ["BlockHeader::read", "UntrustedBlockHeader::read", "Block::read", "UntrustedBlock::read", "CompactBlock::read", "UntrustedCompactBlock::read"]
+		.contains(&t)
+	{
+		0
+	} else if is_codec(s, &["headersv"]) {
+		5
+	} else if is_codec(s, &["headerv", "blockv", "compactblockv", "validblockv", "validcompactblockv"]) {
+		4
+	} else {
+		return None;
+	};
+	let k = |i: usize| s.fields.get(i).map(|f| f.kind).unwrap_or("");
+	if k(o) == "u16" && k(o + 1) == "u64" && k(o + 14) == "u8" && k(o + 15) == "b" {
+		Some((o, o + 1, o + 14))
+	} else {
+		None
+	}
+}
+
+/// walk `n` items starting at field `i`; `item_end(i)` = index of the last field of the item starting at i
+fn walk<F: Fn(usize) -> Option<usize>>(s: &SeedEnc, c: usize, start: usize, n: u64, item_end: F, out: &mut Vec<(usize, usize, usize, usize)>) -> Option<usize> {
+	let mut i = start;
+	let mut first: Option<(usize, usize)> = None;
+	for _ in 0..n {
+		let z = item_end(i)?;
+		if z >= s.fields.len() {
+			return None;
+		}
+		if first.is_none() {
+			first = Some((i, z));
+		}
+		i = z + 1;
+	}
+	if let Some((a, z)) = first {
+		out.push((c, a, z, i - 1));
+	}
+	Some(i)
+}
+
+/// repeated groups (count field + items) of the encodings whose shape the harness knows
+fn find_groups(s: &SeedEnc) -> Vec<(usize, usize, usize, usize)> {
+	let mut out = vec![];
+	let t = s.target;
+	let nf = s.fields.len();
+	let kind = |i: usize| s.fields.get(i).map(|f| f.kind).unwrap_or("");
+	let width = |i: usize| s.fields.get(i).map(|f| f.w).unwrap_or(0);
+	// an item that ends at the first "b" field of width `w` at or after i
+	let until_b = |w: usize| move |i: usize| (i..nf.min(i + 8)).find(|&j| kind(j) == "b" && width(j) == w);
+	let body = |o: usize, out: &mut Vec<(usize, usize, usize, usize)>| -> Option<usize> {
+		if !(kind(o) == "u64" && kind(o + 1) == "u64" && kind(o + 2) == "u64") {
+			return None;
+		}
+		let (ni, no, nk) = (fval(s, o), fval(s, o + 1), fval(s, o + 2));
+		if ni > 64 || no > 64 || nk > 64 {
+			return None;
+		}
+		let i = walk(s, o, o + 3, ni, until_b(33), out)?;
+		// an output: features, commitment, length prefix, proof bytes
+		let i = walk(s, o + 1, i, no, |i| if kind(i + 2) == "len" { Some(i + 3) } else { None }, out)?;
+		walk(s, o + 2, i, nk, until_b(64), out)
+	};
+	if t == "PeerAddrs::read" || is_codec(s, &["peeraddrsv"]) {
+		let o = if t == "Codec::read" { 4 } else { 0 };
+		if kind(o) == "u32" {
+			walk(s, o, o + 1, fval(s, o), |i| Some(i + 2), &mut out);
+		}
+	} else if t == "Locator::read" || is_codec(s, &["getheadersv"]) {
+		let o = if t == "Codec::read" { 4 } else { 0 };
+		if kind(o) == "u8" {
+			walk(s, o, o + 1, fval(s, o), |i| Some(i), &mut out);
+		}
+	} else if t == "MerkleProof::read" {
+		if kind(1) == "u64" {
+			walk(s, 1, 2, fval(s, 1), |i| Some(i), &mut out);
+		}
+	} else if t == "SegmentProof::read" {
+		if kind(0) == "u64" {
+			walk(s, 0, 1, fval(s, 0), |i| Some(i), &mut out);
+		}
+	} else if t == "TransactionBody::read" {
+		body(0, &mut out);
+	} else if t == "Transaction::read" || is_codec(s, &["txv", "stemtxv", "validtxv"]) {
+		body(if t == "Codec::read" { 5 } else { 1 }, &mut out);
+	} else if t == "Block::read" || t == "UntrustedBlock::read" || is_codec(s, &["blockv", "validblockv"]) {
+		body(if t == "Codec::read" { 4 + HEADER_FIELDS } else { HEADER_FIELDS }, &mut out);
+	} else if t == "CompactBlock::read" || t == "UntrustedCompactBlock::read" || is_codec(s, &["compactblockv", "validcompactblockv"]) {
+		// header, nonce, three counts, full outputs, full kernels, short ids
+		let o = (if t == "Codec::read" { 4 } else { 0 }) + HEADER_FIELDS + 1;
+		if kind(o) == "u64" && kind(o + 1) == "u64" && kind(o + 2) == "u64" && fval(s, o) <= 64 && fval(s, o + 1) <= 64 && fval(s, o + 2) <= 64 {
+			if let Some(i) = walk(s, o, o + 3, fval(s, o), |i| if kind(i + 2) == "len" { Some(i + 3) } else { None }, &mut out) {
+				if let Some(i) = walk(s, o + 1, i, fval(s, o + 1), until_b(64), &mut out) {
+					walk(s, o + 2, i, fval(s, o + 2), |i| Some(i), &mut out);
+				}
+			}
+		}
+	} else if t == "BitmapSegment::read" || t == "OutputBitmapSegmentResponse::read" || is_codec(s, &["bitmapseg"]) {
+		// identifier (u8, u64), u16 number of blocks; a block: u8 chunks, u8 mode, raw bytes | u16 count + u16 indices
+		let o = match t {
+			"BitmapSegment::read" => 0,
+			"OutputBitmapSegmentResponse::read" => 1,
+			_ => 5,
+		};
+		if kind(o) == "u8" && kind(o + 1) == "u64" && kind(o + 2) == "u16" {
+			let block_end = |i: usize| -> Option<usize> {
+				if kind(i) != "u8" || kind(i + 1) != "u8" {
+					return None;
+				}
+				if fval(s, i + 1) == 0 {
+					Some(if fval(s, i) == 0 { i + 1 } else { i + 2 })
+				} else if kind(i + 2) == "u16" {
+					Some(i + 2 + fval(s, i + 2) as usize)
+				} else {
+					None
+				}
+			};
+			walk(s, o + 2, o + 3, fval(s, o + 2), block_end, &mut out);
+		}
+	} else if is_codec(s, &["headersv"]) {
+		if kind(4) == "u16" {
+			walk(s, 4, 5, fval(s, 4), |i| Some(i + HEADER_FIELDS - 1), &mut out);
+		}
+	}
+	// every group must lie inside the field list and its count field must be an integer
+	out.retain(|(c, a, z, e)| *c < nf && *a <= *z && *z <= *e && *e < nf && ["u8", "u16", "u32", "u64"].contains(&kind(*c)));
+	out
 }
 
 /// the identifier is the first (u8, u64) field pair after the frame header (codec) / the leading block hash (responses)
@@ -236,6 +388,8 @@ impl Gen {
 					expect_post: self.auto && post,
 					ident: None,
 					proof: None,
+					groups: vec![],
+					hdr: None,
 				});
 			}
 		}
@@ -301,6 +455,31 @@ fn json_value_fields(t: &str) -> Vec<Field> {
 	let mut i = 0;
 	while i < b.len() {
 		match b[i] {
+			b'[' => {
+				// a whole array is a field of its own ("ja": its length is mutated), followed by the fields of its elements
+				let mut depth = 0i32;
+				let mut j = i;
+				let mut in_str = false;
+				while j < b.len() {
+					match b[j] {
+						b'\\' if in_str => j += 1,
+						b'"' => in_str = !in_str,
+						b'[' | b'{' if !in_str => depth += 1,
+						b']' | b'}' if !in_str => {
+							depth -= 1;
+							if depth == 0 {
+								break;
+							}
+						}
+						_ => {}
+					}
+					j += 1;
+				}
+				if j < b.len() {
+					out.push(Field { off: i, w: j + 1 - i, kind: "ja" });
+				}
+				i += 1;
+			}
 			b'"' => {
 				let start = i;
 				i += 1;
@@ -369,14 +548,14 @@ where
 	(out, mp, size, root, elem)
 }
 
-fn ctx_of(root: Hash, other: Hash) -> Option<Vec<u8>> {
+pub fn ctx_of(root: Hash, other: Hash) -> Option<Vec<u8>> {
 	let mut v = root.to_vec();
 	v.extend_from_slice(&other.to_vec());
 	Some(v)
 }
 
 /// root expected by `validate_with(.., last_pos = mmr_size + 7, other, other_is_left = true)`
-fn with_root(root: Hash, other: Hash, size: u64) -> Hash {
+pub fn with_root(root: Hash, other: Hash, size: u64) -> Hash {
 	(other, root).hash_with_index(size + 7)
 }
 
@@ -492,6 +671,8 @@ pub fn build(seed: u64, auto: bool) -> Vec<SeedEnc> {
 			expect_post: true,
 			ident: None,
 			proof: None,
+			groups: vec![],
+			hdr: None,
 		});
 		for (s, size, pr, root) in segs {
 			let l = format!("h{}i{}{}", s.id().height, s.id().idx, if pr { "p" } else { "" });
@@ -641,6 +822,8 @@ pub fn build(seed: u64, auto: bool) -> Vec<SeedEnc> {
 			expect_post: false,
 			ident: None,
 			proof: None,
+			groups: vec![],
+			hdr: None,
 		});
 	}
 	// ---- API strings
@@ -668,6 +851,8 @@ pub fn build(seed: u64, auto: bool) -> Vec<SeedEnc> {
 			expect_post: false,
 			ident: None,
 			proof: None,
+			groups: vec![],
+			hdr: None,
 		});
 	}
 	// hex arguments of the API handlers: a commitment, a hash, a transaction (pool push, protocol version 1)
@@ -692,6 +877,15 @@ pub fn build(seed: u64, auto: bool) -> Vec<SeedEnc> {
 	// number / literal: "jn"); object keys are left alone
 	let json_tx = serde_json::to_string(&api_tx).expect("tx json");
 	strs.push(("json::Transaction", "txjson", json_tx.clone(), json_value_fields(&json_tx), true));
+	// a share submitted to the stratum server: on AutomatedTesting one that is accepted (the template is mined here), else a
+	// well-formed one that fails the cycle check
+	let share = if auto {
+		crate::stratum::valid_params()
+	} else {
+		let n: Vec<String> = (0..global::proofsize() as u64).map(|i| (1000 + 77 * i).to_string()).collect();
+		format!("{{\"height\":{},\"job_id\":0,\"nonce\":7,\"edge_bits\":31,\"pow\":[{}]}}", crate::stratum::JOB_HEIGHT, n.join(","))
+	};
+	strs.push(("stratum::submit", "share", share.clone(), json_value_fields(&share), true));
 	for (t, l, text, fields, ok) in strs {
 		g.out.push(SeedEnc {
 			target: t,
@@ -702,9 +896,11 @@ pub fn build(seed: u64, auto: bool) -> Vec<SeedEnc> {
 			aux: 0,
 			ctx: None,
 			expect_ok: ok,
-			expect_post: false,
+			expect_post: auto && t == "stratum::submit",
 			ident: None,
 			proof: None,
+			groups: vec![],
+			hdr: None,
 		});
 	}
 	// ---- frames for the codec: one per message type, then streams
@@ -833,6 +1029,8 @@ pub fn build(seed: u64, auto: bool) -> Vec<SeedEnc> {
 	for s in g.out.iter_mut() {
 		s.ident = find_ident(s);
 		s.proof = find_proof(s);
+		s.groups = find_groups(s);
+		s.hdr = find_header(s);
 	}
 	g.out
 }
@@ -851,5 +1049,7 @@ fn push_frame(g: &mut Gen, target: &'static str, label: &str, bytes: Vec<u8>, fi
 		expect_post: false,
 		ident: None,
 		proof: None,
+		groups: vec![],
+		hdr: None,
 	});
 }
